@@ -205,6 +205,9 @@ func (ex *Exec) globalObligations(res *Output) {
 		}
 		pk := ex.prog.Pkgs[g.PkgPath]
 		name := fmt.Sprintf("%s.global[%s]#invariant", pk.Types.Name(), g.Var)
+		if g.MapKey != "" {
+			name = fmt.Sprintf("%s.global[%s]#maps[%s]", pk.Types.Name(), g.Var, strings.Trim(g.MapKey, "\""))
+		}
 		oo := &OblOut{Name: name, Kind: "global", Func: pk.Types.Name() + ".<globals>", Text: g.Clause.Text, Backend: "syntactic", Solver: "syntactic", Answer: "n/a"}
 		ok, why := ex.checkGlobalInv(pk, g)
 		if ok {
@@ -218,11 +221,13 @@ func (ex *Exec) globalObligations(res *Output) {
 }
 
 func (ex *Exec) checkGlobalInv(pk *packages.Package, g *GlobalInv) (bool, string) {
-	// supported form: len(<var>) == <int literal>
+	// supported forms: len(<var>) == <int literal>, and entries of a map literal
 	text := strings.ReplaceAll(g.Clause.Text, " ", "")
 	want := -1
-	if _, err := fmt.Sscanf(text, "len("+g.Var+")==%d", &want); err != nil {
-		return false, "only invariants of the form len(v) == N are supported"
+	if g.MapKey == "" {
+		if _, err := fmt.Sscanf(text, "len("+g.Var+")==%d", &want); err != nil {
+			return false, "only invariants of the form len(v) == N are supported"
+		}
 	}
 	obj, _ := pk.Types.Scope().Lookup(g.Var).(*types.Var)
 	if obj == nil {
@@ -230,6 +235,7 @@ func (ex *Exec) checkGlobalInv(pk *packages.Package, g *GlobalInv) (bool, string
 	}
 	// find initialiser
 	n := -1
+	mapOK, mapBad := false, false
 	for _, f := range pk.Syntax {
 		ast.Inspect(f, func(nd ast.Node) bool {
 			vs, ok := nd.(*ast.ValueSpec)
@@ -241,8 +247,16 @@ func (ex *Exec) checkGlobalInv(pk *packages.Package, g *GlobalInv) (bool, string
 					if cl, ok := vs.Values[i].(*ast.CompositeLit); ok {
 						n = len(cl.Elts)
 						for _, e := range cl.Elts {
-							if _, kv := e.(*ast.KeyValueExpr); kv {
-								n = -1
+							if kv, isKV := e.(*ast.KeyValueExpr); isKV {
+								if g.MapKey == "" {
+									n = -1
+								} else if bl, ok := kv.Key.(*ast.BasicLit); ok && bl.Value == g.MapKey {
+									if id, ok := kv.Value.(*ast.Ident); ok && id.Name == g.MapVal {
+										mapOK = true
+									} else {
+										mapBad = true
+									}
+								}
 							}
 						}
 					}
@@ -251,7 +265,11 @@ func (ex *Exec) checkGlobalInv(pk *packages.Package, g *GlobalInv) (bool, string
 			return true
 		})
 	}
-	if n != want {
+	if g.MapKey != "" {
+		if !mapOK || mapBad {
+			return false, fmt.Sprintf("the literal does not map %s to %s", g.MapKey, g.MapVal)
+		}
+	} else if n != want {
 		return false, fmt.Sprintf("initialiser has %d elements, invariant says %d", n, want)
 	}
 	// no assignment outside init
@@ -279,8 +297,23 @@ func (ex *Exec) checkGlobalInv(pk *packages.Package, g *GlobalInv) (bool, string
 				// address escaping: &v passed anywhere
 				for _, op := range in.Operands(nil) {
 					if *op == ssa.Value(glob) {
-						switch in.(type) {
-						case *ssa.UnOp, *ssa.Store:
+						switch ld := in.(type) {
+						case *ssa.UnOp:
+							if g.MapKey != "" {
+								// the map value itself must only be looked up (never updated, ranged or passed on)
+								for _, r := range *ld.Referrers() {
+									switch u := r.(type) {
+									case *ssa.Lookup:
+										if u.X != ssa.Value(ld) {
+											return false, "the map is used as a key in " + fn.String()
+										}
+									case *ssa.DebugRef:
+									default:
+										return false, fmt.Sprintf("the map value is used by %T in %s (only lookups keep the table fixed)", r, fn.String())
+									}
+								}
+							}
+						case *ssa.Store:
 						default:
 							return false, "address of the variable is used in " + fn.String()
 						}
